@@ -676,11 +676,11 @@ def legs(tier):
             nontrivial=lambda c, o: True,
             rule='a cargo-style command line, every snippet of a 100-entry list appended / prepended, and random add/drop/swap/dup '
                  'mutants and short random command lines; static-library lookup against generated directories'),
-        Leg('key', lambda rng, t: gen_key(rng, 30000 if big else 500), monitor=mon_key, stats=stats_key,
+        Leg('key', lambda rng, t: gen_key(rng, 20000 if big else 500), monitor=mon_key, stats=stats_key,
             nontrivial=lambda c, o: isinstance(o, list) and o[:1] == [b'ok'],
             rule='requests through the real Rust::parse_arguments + generate_hash_key with a mocked rustc (dep-info text, file names) and real '
                  'files; the compared observable is the byte string fed to the digest; non-trivial = a key was produced'),
-        Leg('keypair', lambda rng, t: gen_keypair(rng, 60000 if big else 1200), monitor=mon_keypair, stats=stats_keypair,
+        Leg('keypair', lambda rng, t: gen_keypair(rng, 40000 if big else 1200), monitor=mon_keypair, stats=stats_keypair,
             nontrivial=lambda c, o: isinstance(o, list) and len(o) == 3 and o[1][:1] == [b'ok'] and o[2][:1] == [b'ok'],
             rule='pairs of requests in one working directory that differ by one mutation out of 24 classes; the monitor demands '
                  'different keys for a changed hashed input and equal keys for reorderings / unhashed inputs'),
